@@ -606,6 +606,16 @@ impl ObjectReceiver {
             );
             return;
         }
+
+        if self.enable_md5_check {
+            // No block goes through the block writer: check the announced MD5 against the empty content
+            use base64::Engine;
+            let md5 = base64::engine::general_purpose::STANDARD.encode(md5::compute([]).0);
+            if self.content_md5.as_deref() != Some(md5.as_str()) {
+                self.error("MD5 does not match, the object is not empty", now, false);
+                return;
+            }
+        }
         self.complete(now);
     }
 
